@@ -324,6 +324,23 @@ class Check:
         return 0
 
 
+def apalache(module, cinit, init, inv, length, timeout=1800, tag=None):
+    """apalache-mc check on spec/<module>.tla. Returns "ok" | "error" (an invariant violation was found); anything else raises."""
+    out = os.path.join(WORK, "apalache", (tag or module) + "_%d" % os.getpid())
+    shutil.rmtree(out, ignore_errors=True)
+    os.makedirs(out, exist_ok=True)
+    cmd = ["timeout", str(timeout), "apalache-mc", "check", "--out-dir=" + out, "--cinit=" + cinit, "--init=" + init, "--inv=" + inv,
+           "--length=%d" % length, module + ".tla"]
+    p = subprocess.run(cmd, cwd=SPEC, stdout=subprocess.PIPE, stderr=subprocess.STDOUT, text=True)
+    shutil.rmtree(out, ignore_errors=True)
+    if "EXITCODE: OK" in p.stdout:
+        return "ok"
+    if "EXITCODE: ERROR (12)" in p.stdout:
+        return "error"
+    log(p.stdout[-2000:])
+    raise ToolError("apalache-mc gave no verdict for %s (%s/%s)" % (module, init, inv))
+
+
 def tlc_parallel(jobs, parallel=5):
     """jobs: list of dicts of tlc() keyword arguments (module, cfg, ...). Returns results in order."""
     from concurrent.futures import ThreadPoolExecutor
